@@ -491,6 +491,8 @@ func desc(v ssa.Value, depth int) string {
 	switch x := v.(type) {
 	case nil:
 		return "<nil>"
+	case *pastVal:
+		return desc(x.Value, depth+1)
 	case *ssa.Parameter:
 		return paramDesc(x, depth)
 	case *ssa.FreeVar:
